@@ -71,9 +71,14 @@ Print Assumptions C09_names_consistent_idl.
 
 (* Type() itself: total once the two reflect panics are repaired ... *)
 Theorem C09_holds_type_total : forall cfg t, c_key_panic cfg = false -> c_dup_panic cfg = false ->
-  go_type_result cfg t = Some (go_type t).
+  go_type_result cfg t <> None.
 Proof. exact go_type_total. Qed.
 Print Assumptions C09_holds_type_total.
+(* ... and on every type without an uncomparable key and without clashing member names it is the
+   kind tree go_type t of the theorems above, repaired or not *)
+Theorem C09_type_unaffected : forall cfg t, bad_key t = false -> dup_member t = false -> go_type_result cfg t = Some (go_type t).
+Proof. exact go_type_good. Qed.
+Print Assumptions C09_type_unaffected.
 (* ... and on the pinned code a signature of the grammar whose Type() panics *)
 Theorem C09_refuted_type_panics_uncomparable_key :
   exists t, wf_ty t = true /\ parse "{[i]i}" = POk t /\
